@@ -45,6 +45,17 @@ PROPS = {
         'assumptions': ["composition: IpmWriter.write frames exactly dumps(message) with its own encoding/configuration; IpmReader.__next__ hands exactly the framed record to loads with its own encoding/configuration; C01 (loads(dumps(m)) = m) and C03 (framing round trip) do the rest; an end-to-end ghost client over the real classes is executed for two messages (VBS and 1014)",
                         "isolation: every reader/writer method writes only fields of its own instance and its own file object (frame obligations; a lint over the class bodies for stores to class attributes or globals); simultaneous use from several THREADS is out of reach - only sequential interleavings of whole calls are covered"],
     },
+    'C18': {
+        'modules': ['contracts.iso_field', 'contracts.ipm_param'],
+        'canaries': [
+            (MCI, "field_offset = -8  # all fields should be offset by this value", "field_offset = -7  # all fields should be offset by this value", "compressed columns shifted by one", "__next__[compressed"),
+            (MCI, "            if record_table_id == self.table_id:\n                record_dict = {", "            if record_table_id >= self.table_id:\n                record_dict = {", "rows of later tables returned", "__next__[expanded"),
+            (MCI, "_IP0000T1_TABLE_SUB_ID = slice(243, 246)", "_IP0000T1_TABLE_SUB_ID = slice(242, 245)", "index sub id read from the wrong columns", "__init__[1 index"),
+        ],
+        'assumptions': ["the VBS layer under the parameter reader is replaced by its contract (C03/C05): records of a ghost list of any length, then StopIteration",
+                        "index rows: files whose index has 0, 1 or 2 rows before the trailer are executed (each row symbolic); an arbitrary number of index rows is not mechanised; data rows: any number, by loop invariant with a skolem row for `no row skipped`",
+                        "decode commutes with slicing for single-byte codecs (element-wise decode model); undecodable records are outside the property"],
+    },
     'C07': {
         'modules': ISOMODS + ['contracts.mciipm_block', 'contracts.mciipm_vbs'],
         'canaries': [
